@@ -27,6 +27,7 @@
     consumer generation after its check and removed allocations written in between - was found while
     attempting this proof, reproduced on the real application and repaired: 8fa9b40.)
 -/
+import Placement.Lemmas.GuardTie
 import Placement.Lemmas.SchedConsTxn
 import Placement.Lemmas.WfExample
 
